@@ -42,10 +42,10 @@ func hxTestMsg(i, nr, fail int, enc Encoding) *Msg {
 	} else {
 		m.SetBodyWriter(TypeTextPlain, func(w io.Writer) (int64, error) {
 			if fail == 1 {
-				return 0, hxProdErr
+				return 0, hxProdFail()
 			}
 			n, _ := w.Write([]byte(text))
-			return int64(n), hxProdErr
+			return int64(n), hxProdFail()
 		})
 	}
 	return m
@@ -95,6 +95,10 @@ func HarnessC03Commit() {
 	svReach("dialled")
 	var msgs []*Msg
 	fails := make([]int, nm)
+	hxProdErrKind = 0
+	if ek := svParam("errkinds", 1); ek > 1 {
+		hxProdErrKind = svPick("producer-error-kind", ek)
+	}
 	for i := 0; i < nm; i++ {
 		if svParam("producers", 1) == 1 {
 			fails[i] = svPick("producer-fault", 3)
